@@ -31,7 +31,11 @@ Definition uuid_tables_ok : bool :=
   && N.eqb (assoc_n uuid_action_record s_remove_contact_groups) 1
   && N.eqb (assoc_n uuid_action_record s_enter_flow) 2
   && mem_str uuid_case_record s_has_group
-  && N.eqb uuid_case_uuid_idx 0 && N.eqb uuid_case_name_idx 1.
+  && N.eqb uuid_case_uuid_idx 0 && N.eqb uuid_case_name_idx 1
+  (* the hooks of router cases do not look at the operand / wait of the router: a has_group test on a
+     wait_for_response / split_by_value / no_op / enter-flow router is recorded and assigned like the
+     one of a group split (the model's case_refs / assign_case have no operand to look at) *)
+  && uuid_case_operand_free.
 
 Lemma uuid_tables_ok_true : uuid_tables_ok = true.
 Proof. vm_compute. reflexivity. Qed.
